@@ -458,6 +458,15 @@ class Interp:
             return self.eval(lam.body, Frame(f.frame.module, f.frame.func, loc, f.frame.closure, f.frame.self_val,
                                              f.frame.def_cls))
         if isinstance(f, Unknown):
+            recv = f.meta.get("recv")
+            if isinstance(recv, Unknown) and "group0" in recv.meta and f.meta.get("attr") == "group" and \
+                    (not args or (len(args) == 1 and isinstance(args[0], IntV) and args[0].v == 0)) and not kwargs:
+                return recv.meta["group0"]
+            if isinstance(recv, Unknown) and "compiled" in recv.meta:
+                mod, pat = recv.meta["compiled"]
+                meth = getattr(self.bi, f"x_{mod}_{f.meta.get('attr')}", None)
+                if meth is not None:
+                    return meth([pat] + list(args), dict(kwargs), node, fr)
             if self.unknown_call_hook is not None:
                 r = self.unknown_call_hook(self, f, args, kwargs, node, fr)
                 if r is not None:
